@@ -199,6 +199,13 @@ def run(res):
             for r in range(idx.shape[0]):
                 g0, o0 = int(idx[r][0]), int(idx[r][1])
                 o1 = int(idx[r + 1][1]) if r + 1 < idx.shape[0] else nrows
+                if o1 <= o0:
+                    # an index row without samples still claims its index for this file
+                    sp0, _F0, _S0 = spec(0, n, dd, sc, fc, g0)
+                    if (subn, bn) != (sp0[3], sp0[4][4:]):
+                        res.violation("sample-in-wrong-file", "an index row names a sample outside the file/directory the exact layout names",
+                                      {"fn": "recording", "n": n, "d": dd, "sc": sc, "fc": fc, "start": start, "K": g0,
+                                       "continuous": cont, "TZ": os.environ["TZ"]}, [sp0[3], sp0[4][4:]], [subn, bn])
                 for o in range(o0, o1):
                     K = g0 + (o - o0)
                     if K not in written:
@@ -236,8 +243,8 @@ def run(res):
             for r, (g0, o0) in enumerate(rows):
                 o1 = rows[r + 1][1] if r + 1 < len(rows) else nd
                 for K in (g0, g0 + max(0, o1 - o0) - 1):          # first and last index of the block
-                    if o1 <= o0:
-                        continue
+                    if o1 <= o0 and K != g0:
+                        continue                                   # (a row without samples still names its index)
                     res.case((cfg.n, cfg.d, cfg.sc, cfg.fc, K), nontrivial=False)
                     sp, F, S = spec(0, cfg.n, cfg.d, cfg.sc, cfg.fc, K)
                     want = (sp[3], sp[4][4:])
